@@ -119,6 +119,13 @@ func (fr *frame) call(v ssa.Value, c *ssa.CallCommon, st *State, g string, isDef
 	if mc, ok := c.Value.(*ssa.MakeClosure); ok {
 		ci = fr.closures[mc]
 	}
+	{
+		ck := fnKey(callee)
+		if callee.Pkg != nil && callee.Pkg.Pkg.Path() != enginePath && callee.Pkg.Pkg.Path() != rootPath {
+			ck = externKey(callee)
+		}
+		fr.atCallClauses(ck, st, g, args, argT, pos)
+	}
 	// ---- contract
 	if d := vc.P.contractFor(callee); d != nil && !d.Has("inline") {
 		names := fnParamNames(callee)
@@ -505,7 +512,9 @@ func (fr *frame) applyContract(d *Decl, callee *ssa.Function, sig *types.Signatu
 	}
 	fr.callOrd[key]++
 	ord := fr.callOrd[key]
-	fr.atCallClauses(key, st, g, args, argT, pos)
+	if callee == nil {
+		fr.atCallClauses(key, st, g, args, argT, pos)
+	}
 	ctxFn := callee
 	if ctxFn == nil || ctxFn.Pkg == nil {
 		ctxFn = fr.fn
@@ -605,6 +614,10 @@ func (fr *frame) applyContract(d *Decl, callee *ssa.Function, sig *types.Signatu
 func (fr *frame) atCallClauses(key string, st *State, g string, args []string, argT []types.Type, pos token.Pos) {
 	root := fr.rootFr
 	if root.contract == nil {
+		return
+	}
+	// only the function's own calls (and those of closures it defines and runs itself), not calls made by inlined callees
+	if fr != root && fr.fn.Parent() != root.fn {
 		return
 	}
 	vc := fr.vc
@@ -838,7 +851,17 @@ func (fr *frame) deferCall(x *ssa.Defer, st *State, g string) {
 	mut := true
 	if callee := c.StaticCallee(); callee != nil {
 		desc = fnKey(callee)
+		// stores through a parameter whose actual argument is the address of one of our own local variables are not
+		// visible to a continuation (e.g. ensurePromise(&promise) writing the named result)
+		local := map[ssa.Value]bool{}
+		for i, a := range c.Args {
+			if al, ok := a.(*ssa.Alloc); ok && i < len(callee.Params) && !addrEscapesExceptDefer(al) {
+				local[callee.Params[i]] = true
+			}
+		}
+		fr.localParams = local
 		mut = fr.mayMutate(callee, 0)
+		fr.localParams = nil
 	} else if c.IsInvoke() {
 		desc = c.Method.Name()
 	}
@@ -865,14 +888,30 @@ func (fr *frame) mayMutate(fn *ssa.Function, depth int) bool {
 		}
 		return true
 	}
+	if pureExtern[fn.String()] {
+		return false
+	}
 	if len(fn.Blocks) == 0 || depth > 3 {
-		return !pureExtern[fn.String()]
+		return true
 	}
 	for _, b := range fn.Blocks {
 		for _, in := range b.Instrs {
 			switch x := in.(type) {
 			case *ssa.Store:
-				if _, local := x.Addr.(*ssa.Alloc); local {
+				root := x.Addr
+				for {
+					if fa, ok := root.(*ssa.FieldAddr); ok {
+						root = fa.X
+					} else if ia, ok := root.(*ssa.IndexAddr); ok {
+						root = ia.X
+					} else {
+						break
+					}
+				}
+				if _, local := root.(*ssa.Alloc); local {
+					continue // initialisation of an object allocated here
+				}
+				if fr.localParams[root] {
 					continue
 				}
 				// a store into a captured result variable (named result of the parent) is local to the activation
@@ -904,6 +943,10 @@ func (fr *frame) mayMutate(fn *ssa.Function, depth int) bool {
 		}
 	}
 	return false
+}
+
+func addrEscapesExceptDefer(a *ssa.Alloc) bool {
+	return addrEscapes(a, map[ssa.Value]bool{}, 0)
 }
 
 func isErrorPtr(t types.Type) bool {
